@@ -176,7 +176,8 @@ def r16_2(run, model):
 
     def if_returns_err(fn_, pred, what, witness):
         hit = None
-        for iff in S.find(fn_.body, "If"):
+        # the test may sit in a private helper of fn_ (same file, one level): the obligation stays fn_'s
+        for iff in [i_ for g_ in model.scope_fns(fn_) if g_.body is not None for i_ in S.find(g_.body, "If")]:
             txt = S.norm_ws(run.facts.text(fn_.file, iff["cond"]["sp"]))
             if pred(txt):
                 rets = [r for r in S.find(iff["then"], "Return") if r.get("expr") and r["expr"]["k"] == "Call" and S.callee_name(r["expr"]) == "Err"]
@@ -218,8 +219,8 @@ def r16_2(run, model):
                 if arm.get("guard") is not None:
                     tests.append((arm["guard"], arm["body"], arm, mt))
         for cond_n, taken, iff, mt in tests:
-            txt = S.norm_ws(run.facts.text(PK, cond_n["sp"]))
-            m = re.search(r"package\.0!=&?([A-Za-z_]+)|([A-Za-z_]+)!=&?ast\.package\.0", txt)
+            txt = S.text_with_locals(run.facts, PK, cond_n, lp.body)
+            m = re.search(r"package\.0\)?!=&?([A-Za-z_]+)|([A-Za-z_]+)!=\(?&?ast\.package\.0", txt)
             if not m:
                 continue
             rets = [r for r in S.find(taken, "Return")]
